@@ -131,6 +131,8 @@ def run(tier, seed):
                 site = "definition named like a prelude/candid type (%s)" % (m.group(1) if m else pre[0]) if (m or pre) else "rust.rs"
                 if site == "rust.rs" and "error[E0428]" in ce:
                     site = "names equal after case conversion (E0428 defined multiple times)"
+                elif site == "rust.rs" and "error[E0124]" in ce:
+                    site = "names equal after case conversion (E0124 field already declared)"
             res.violation(t.split("@")[0], site, {"src": r.get("src", "")[:1500], "type_defs": r.get("type_defs", "")[:2500], "compile_error": (r.get("rs") or {}).get("compile_error")}, (r.get("rs") or {}).get("compile_error") or "")
     res.rule = ("%d programs: the accepted one-definition programs of MC_Prog and random valid programs whose definition/field names are drawn from a pool of naming hazards (names equal after Pascal/snake conversion, Rust "
                 "keywords in any case, std type names, non-ASCII and quoted labels, numeric labels in one third of them, recursion needing Box, nested anonymous records/variants/functions); the generator's type definitions are "
